@@ -459,15 +459,20 @@ def check_batch(progs, st):
         except NotImplementedError as ex:
             cause = "no-gold:%s" % ex
         divs.append(dict(spec=spec, ctx=ctx, cause=cause, values={k: v for k, v in mdl.items() if not k.startswith("y")}, confirmed=conf, real=real, text=txt, line=text_line(c.src, n)))
-    # vacuity guard: two different programs must be distinguishable
-    if len(ys) >= 2 and "witness" not in st:
-        for i in range(len(ys) - 1):
-            a_, b_ = c.vres.get(c.ns.get_name(ys[i])), sres.get(ys[i + 1])
-            if a_ is not None and b_ is not None and a_.size() == b_.size():
-                r, _ = ask(a_, b_)
-                if r == "sat":
-                    st["witness"] = True
-                    break
+    # vacuity guard: the text of one program and the simulator value of ANOTHER program must be distinguishable
+    if "witness" not in st:
+        tried = 0
+        for i in range(len(ys)):
+            for j in range(i + 1, min(i + 12, len(ys))):
+                a_, b_ = c.vres.get(c.ns.get_name(ys[i])), sres.get(ys[j])
+                if a_ is not None and b_ is not None and a_.size() == b_.size() and tried < 40:
+                    tried += 1
+                    r, _ = ask(a_, b_)
+                    if r == "sat":
+                        st["witness"] = True
+                        break
+            if st.get("witness") or tried >= 40:
+                break
     return divs
 
 
